@@ -19,7 +19,7 @@ RULE = ('Hypothesis-generated episodes on the cluster simulator: 2-4 real instan
         'value over the programs; reported); after the quiet suffix no instance reports a job in progress. Non-trivial '
         '= a job that ends by timeout (forced state with an "event not received" reason) or by invalidation of its '
         'target; distinct = distinct episodes.')
-ASSUMPTIONS = ['a wait_exit program that never exits is the documented exception: not generated here',
+ASSUMPTIONS = ['a wait_exit program that never exits is the documented exception: not generated here; a wait_exit program whose EXITED publication is lost looks the same to the requester (seen RUNNING, no time-out by design): exempted and counted',
                'B is measured in local ticks of the requesting instance (virtual clock)']
 SHARDS = {'quick': 16, 'thorough': 16}
 
@@ -105,11 +105,26 @@ class JobBoundMonitor(Monitor):
             if last is None:
                 continue
             waited = n - last
+            if waited > self.bound[kind] and kind == 'starting' and self._waits_for_exit(inst):
+                self.flags.add('wait-exit-exception')
+                continue
             if waited > self.bound[kind] and key + (kind,) not in self.reported:
                 self.reported.add(key + (kind,))
                 jobs = self._describe(inst, kind)
                 self.findings.append((f'job-not-ended:{kind}', f't={inst.world.now} {inst.nick} still reports {kind} jobs '
                                       f'{waited} local ticks after its last request (bound {self.bound[kind]}): {jobs}'))
+
+    def _waits_for_exit(self, inst):
+        """Documented exception: a start command of a wait_exit program that the requester sees RUNNING has no time-out
+        (the program is expected to exit by itself; when its EXITED publication is lost the requester cannot know)."""
+        wait_exit = {f"{a['name']}:{p['name']}" for a in self.config.get('apps', []) for p in a['programs']
+                     if p.get('rules', {}).get('wait_exit')}
+        for job in inst.supvisors.starter.current_jobs.values():
+            for c in job.current_jobs:
+                info = c.get_instance_info() or {}
+                if c.process.namespec in wait_exit and info.get('state') == 20:
+                    return True
+        return False
 
     @staticmethod
     def _describe(inst, kind):
@@ -130,6 +145,8 @@ class JobBoundMonitor(Monitor):
                 sm = inst.supvisors.state_modes.local_state_modes
                 if (sm.starting_jobs or sm.stopping_jobs) and inst.supvisors.fsm.state.name not in ('FINAL',):
                     kind = 'starting' if sm.starting_jobs else 'stopping'
+                    if kind == 'starting' and self._waits_for_exit(inst):
+                        continue
                     out.append((f'job-pending-after-suffix:{kind}', f'{inst.nick} still reports {kind} jobs after the quiet '
                                 f'suffix: {self._describe(inst, kind)}'))
         return out
